@@ -3,6 +3,7 @@ package rt
 import (
 	"regexp"
 	"runtime"
+	"strconv"
 	"strings"
 	"sync"
 	"time"
@@ -132,4 +133,18 @@ func (b *Barrier) Wait() {
 	}
 	b.mu.Unlock()
 	<-b.ch
+}
+
+// GID is the id of the calling goroutine (parsed from its stack header): monitors use it to attribute a callback
+// to the call on whose goroutine it runs. -1 if the header cannot be parsed.
+func GID() int64 {
+	var buf [64]byte
+	s := string(buf[:runtime.Stack(buf[:], false)])
+	s = strings.TrimPrefix(s, "goroutine ")
+	if i := strings.IndexByte(s, ' '); i > 0 {
+		if n, err := strconv.ParseInt(s[:i], 10, 64); err == nil {
+			return n
+		}
+	}
+	return -1
 }
